@@ -4072,6 +4072,7 @@ class Qube(object):
         else:
             self._values_ &= (arg != 0)
 
+        self._cache_.clear()
         return self
 
     #===========================================================================
@@ -4088,6 +4089,7 @@ class Qube(object):
         else:
             self._values_ |= (arg != 0)
 
+        self._cache_.clear()
         return self
 
     #===========================================================================
@@ -4104,6 +4106,7 @@ class Qube(object):
         else:
             self._values_ ^= (arg != 0)
 
+        self._cache_.clear()
         return self
 
     #===========================================================================
